@@ -15,5 +15,6 @@ From Chess3 Require Export Model.Hist Model.Picker Spec.PickerSpec.  (* C16 *)
 From Chess3 Require Export Model.FenStreams.
 From Chess3 Require Export Spec.FenSpec.
 From Chess3 Require Export Model.AttacksStream.
+From Chess3 Require Export Model.SeeStreams.
 
 Extraction Language OCaml.
